@@ -90,6 +90,11 @@ func pairNames(l lat) (string, string) {
 }
 
 func newPair(b *bubble, l lat, more ...func(name string, c *ml.Config)) *pair {
+	return newPairOpt(b, l, true, more...)
+}
+
+// newPairOpt: intro=false leaves the two nodes unaware of each other (for Join).
+func newPairOpt(b *bubble, l lat, intro bool, more ...func(name string, c *ml.Config)) *pair {
 	p := &pair{l: l}
 	sn, rn := pairNames(l)
 	mk := func(name string, ip net.IP) *node {
@@ -111,14 +116,18 @@ func newPair(b *bubble, l lat, more ...func(name string, c *ml.Config)) *pair {
 	if pm == 0 {
 		pm = 5
 	}
+	if !intro {
+		p.drainQueues()
+		return p
+	}
 	// introduce them to each other (peer's version vector as advertised, with the chosen max)
-	intro := func(a, bn *node, ip net.IP) {
+	intro2 := func(a, bn *node, ip net.IP) {
 		v := bn.Cfg.BuildVsnArray()
 		v[1] = pm
 		a.M.VAliveNode(&ml.VAlive{Incarnation: 1, Node: bn.Name, Addr: ip, Port: 7946, Meta: nil, Vsn: v}, nil, false)
 	}
-	intro(p.s, p.r, ip4(2))
-	intro(p.r, p.s, ip4(1))
+	intro2(p.s, p.r, ip4(2))
+	intro2(p.r, p.s, ip4(1))
 	advance(time.Microsecond)
 	p.drainQueues()
 	p.Tap = nil
